@@ -286,6 +286,53 @@ def exec_clean(case, obs):
     obs.outcome = tuple(sorted(rows[i]["subtomo_id"] for i in kept))
 
 
+def exec_dense(case, obs):
+    """Dense clusters: the best particle of a group has tens to hundreds of group members within d (the statement's
+    1..400 particles in clusters).  Same three judgements as the small scenes, on brute-force distances."""
+    n, d, kg, ngroups, shifted, seed = case
+    rs = np.random.RandomState(9001 + 31 * seed + n)
+    side = int(np.ceil(n ** (1.0 / 3.0)))
+    cells = [(i, j, k) for i in range(side) for j in range(side) for k in range(side)][:n]
+    for attempt in range(50):
+        pts = np.array([ORIGIN + (c[0] + j[0]) * U + (c[1] + j[1]) * V + (c[2] + j[2]) * W
+                        for c, j in zip(cells, rs.uniform(-0.2, 0.2, size=(n, 3)))])
+        if sup.min_margin(list(pts), (d,)) >= 1e-7:
+            break
+    else:
+        raise HarnessError("C07: no tie-free dense cluster found")
+    order = [(k * 37 + 11) % n for k in range(n)] if np.gcd(37, n) == 1 else list(rs.permutation(n))
+    rows = []
+    for p in range(n):
+        sh = SHIFTS[p % len(SHIFTS)] if shifted else (0.0, 0.0, 0.0)
+        r = {"subtomo_id": float(1000 + 3 * p), "x": pts[p][0] - sh[0], "y": pts[p][1] - sh[1], "z": pts[p][2] - sh[2],
+             "shift_x": sh[0], "shift_y": sh[1], "shift_z": sh[2], "score": -0.4 + 0.0031 * order[p], "geom1": 5.0 - 0.01 * order[p],
+             "tomo_id": GROUP_LABELS[p % ngroups], "object_id": float(p + 1), "class": 1.0}
+        rows.append(r)
+    cls = ("keep-greater" if kg else "keep-lower") + ",dense-cluster"
+    out = _clean(obs, rows, d, "tomo_id", "score", kg)
+    kept = _survivors(obs, out, rows, cls)
+    if kept is None:
+        obs.outcome = ("malformed",)
+        return
+    P = [tuple(r[a] + r["shift_" + a] for a in "xyz") for r in rows]
+    scores = [r["score"] for r in rows]
+    for g in range(ngroups):
+        members = [i for i in range(n) if i % ngroups == g]
+        gk = kept & set(members)
+        gr = [i for i in members if i not in gk]
+        bad = sup.separated(P, gk, d)
+        obs.check(not bad, SITE_CLEAN, "survivors-separated", lambda: f"d={d}, {n} particles: {len(bad)} survivor pairs closer than d, first {bad[:2]}", cls)
+        if gr:
+            und = sup.undominated(P, scores, gk, gr, d, greater=kg)
+            obs.check(not und, SITE_CLEAN, "removed-dominated", lambda: f"d={d}, {n} particles: {len(und)} removed particles without a better survivor within d, first ids {[rows[i]['subtomo_id'] for i in und[:4]]}", cls)
+        model = sup.greedy(P, scores, members, d, greater=kg)
+        if model is not None:
+            obs.check(gk == model, SITE_CLEAN, "survivors-equal-greedy-model",
+                      lambda: f"d={d}, {n} particles: {len(gk)} survivors, model {len(model)}; only library {sorted(gk - model)[:5]}, only model {sorted(model - gk)[:5]}", cls)
+    obs.nontrivial = 1 <= len(kept) < n
+    obs.outcome = (n, len(kept), hash(tuple(sorted(kept))) & 0xFFFFFF)
+
+
 def describe_clean(case):
     kind, subset, levels, groups, d, kg, (feature, metric, shifted), seed = case
     return {"layout": kind, "sites": list(subset), "score_levels": list(levels), "groups": list(groups), "d": d,
@@ -534,6 +581,10 @@ def families(tier, seed):
     dup_shapes = [c for c in clean_shapes("line-dup", 7, (2, 3), 0, 2) if 1 in c[1] and 6 in c[1]]
     fams.append(clean_family("clean-coincident-particles", dup_shapes, RADII, [P0, ("tomo_id", "score", True), ("class", "geom1", True)], seed,
                              ("survivors-separated", "removed-dominated", "survivors-equal-greedy-model")))
+    dn = (33, 40, 64, 100) if not thorough else (33, 34, 40, 64, 100, 200, 400)
+    fams.append(Family("clean-dense-cluster", Mapped(Product(dn, (1.6, 3.1, 6.3), (True, False), (1, 2), (False, True)), lambda c: c + (seed,)), exec_dense,
+                       describe=lambda c: {"particles": c[0], "d": c[1], "keep_greater": c[2], "groups": c[3], "shifts": c[4], "layout": "jittered cubic lattice, spacing 1"},
+                       expect=("survivors-separated", "removed-dominated", "survivors-equal-greedy-model")))
     tm_core = ("peaks-exceed-threshold", "peaks-separated", "supra-voxel-dominated", "peaks-equal-greedy-model",
                "peak-score-is-voxel-score", "peak-position-1based", "peak-angles")
     perms6 = list(itertools.permutations(range(6)))
